@@ -2,25 +2,25 @@
 import json
 P=json.load(open('/verif/props.json'))['properties']
 notes={
-"C01":("proof","Lean theorem encMsg_eq_specEnc (model of the generated Encode = canonical specification encoder for every well-typed value of every schema) + spec round trip; regenerated writer/map tables and Go expressions; stream M: real Marshal vs model vs spec, reference parses the real bytes back to the same values and presence"),
-"C02":("proof","specification decoder Spec.specDec (record at a time) with its laws; decoder refinement machine = spec; stream M: reference encodings closed under wire rewrites decoded by real code, model, spec and reference"),
-"C03":("proof","spec round trip theorem + T_enc + decoder refinement; stream M real round trip with deep comparison, maps in permuted orders"),
-"C04":("proof","unmarshal_total: for every byte string, schema and start value the decoder model (every slice checked, every loop on fuel) returns ok: no panic, no out-of-fuel; store facts regenerated from source for input immutability; PARTIAL for stack/alloc/time"),
-"C05":("proof","specDec accepts iff wellFormed (value-free predicate), truncation rejected, no suffix ignored; machine tied by refinement + real err==nil vs independent Go well-formedness predicate on every mutated input"),
-"C06":("proof","T_enc: Marshal model = canonical specification encoder (ascending numbers, packed, minimal varints by construction, defaults omitted by bit pattern, captured bytes last); anyBytes length-prefix refinement for every payload size; stream M/E vs reference deterministic bytes"),
+"C01":("proof","Lean theorem encMsg_eq_specEnc (model of the generated Encode = canonical specification encoder for every well-typed value of every schema) + spec round trip; regenerated writer/map tables and Go expressions; stream M: real Marshal vs model vs spec, reference parses the real bytes back to the same values and presence; encoder.go / wire.go append functions / Marshal translated statement by statement from the source and proved equal to the model (GoTieEncoder, GoTieWire)"),
+"C02":("proof","specification decoder Spec.specDec (record at a time) with its laws; decoder refinement machine = spec; stream M: reference encodings closed under wire rewrites decoded by real code, model, spec and reference; decoder.go, message.go Unmarshal and the wire.go consume functions translated from the source and proved equal to the model (GoTieDecoder, GoTieWire): C02_source_unmarshal_is_spec"),
+"C03":("proof","spec round trip theorem + T_enc + decoder refinement; stream M real round trip with deep comparison, maps in permuted orders; translated Marshal/Unmarshal = model (GoTieEncoder, GoTieApi)"),
+"C04":("proof","unmarshal_total: for every byte string, schema and start value the decoder model (every slice checked, every loop on fuel) returns ok: no panic, no out-of-fuel; store facts regenerated from source for input immutability; PARTIAL for stack/alloc/time; C04_source_unmarshal_total: the same for the statement-level translation of message.go+decoder.go (regenerated every run), C04_source_wire for the translated wire.go primitives"),
+"C05":("proof","specDec accepts iff wellFormed (value-free predicate), truncation rejected, no suffix ignored; machine tied by refinement + real err==nil vs independent Go well-formedness predicate on every mutated input; C05_source_unmarshal_nil_iff_wellformed for the translated source"),
+"C06":("proof","T_enc: Marshal model = canonical specification encoder (ascending numbers, packed, minimal varints by construction, defaults omitted by bit pattern, captured bytes last); anyBytes length-prefix refinement for every payload size; stream M/E vs reference deterministic bytes; encoder.go / AppendVarint / appendTag translated and proved equal to the model"),
 "C07":("proof","closure theorem over the import graph regenerated from go list -deps (plain and overlay builds): every package reachable by an import path of any length is std or in-module and is not reflect/fmt"),
 "C08":("proof","presence corollaries of T_enc and the spec round trip (optional set to zero, oneof member holding zero, empty sub-message, repeated message count); stream M with every presence slot at default content against reference Has()"),
-"C09":("proof","specUnmarshal_append: a||b = a then b for any b and any number of calls (induction on the list); stream M sequential vs one call vs reference"),
-"C10":("proof","unknown_skipped / unknown_captured / capture_exact on the specification; forward-compatibility chains sender -> narrow capturing schema -> wide schema on the real code"),
+"C09":("proof","specUnmarshal_append: a||b = a then b for any b and any number of calls (induction on the list); stream M sequential vs one call vs reference; translated decoder.go / wire.go = model"),
+"C10":("proof","unknown_skipped / unknown_captured / capture_exact on the specification; forward-compatibility chains sender -> narrow capturing schema -> wide schema on the real code; translated decoder.go (UnrecognizedFields, Loop) / ConsumeFieldValue = model"),
 "C11":("proof","map_table_expected: all 180 codecs have the one modelled shape (regenerated from picowire/map.go); generic map encode/decode theorems; stream M over all 180 instantiations"),
 "C12":("proof","the theorems of C01-C03,C06,C08 are stated for every supported schema (deep embedding of the emitted code); PARTIAL: the tie of that embedding to protoc-gen-pico is by running the working-tree generator on an exhaustive shape schema + sampled fresh schemas each run (terminates, compiles, deterministic, behaves as the model)"),
-"C13":("proof","per-call theorems for readers (untouched on other field, consume exactly one field, sticky errors) and writers (closed forms, default omitted, nesting composes, absence leaves no trace) + regenerated 60-writer/30-reader tables; streams E, D, P"),
+"C13":("proof","per-call theorems for readers (untouched on other field, consume exactly one field, sticky errors) and writers (closed forms, default omitted, nesting composes, absence leaves no trace) + regenerated 60-writer/30-reader tables; streams E, D, P; every Decoder/Encoder core method and wire primitive translated from the source and proved equal to its model (GoTie.D/E/W)"),
 "C14":("proof","Int-level theorems with explicit int64/int32 wrap-around: split, round trip, exact saturation characterisation, timestamp normalisation; stream T vs durationpb/timestamppb; time package behaviour is a trusted parameter"),
 "C15":("proof","universal theorems over BitVec 32 about the regenerated Go expressions: closed form, round trip, only +0 is default, for singular / packed / oneof (Always) variants; stream P/E/M; thorough tier sweeps all 2^32 on the Go side"),
 "C16":("proof","PARTIAL: schedule-independence theorem for threads with private state over a read-only store + regenerated facts (no package-level mutable state, no go statements, stores only through receivers/outputs); -race stress as the failing-schedule search"),
-"C17":("proof","anyBytesLow_refines + runOps_appends on a Go-slice model with stale capacity and re-allocation oracle: MarshalBuffer(any buffer) = Marshal for every program; no stale byte exposed; store facts regenerated; streams E/M with adversarial buffers"),
-"C19":("proof","fieldString_decimal for every int32 (no panic, equals decimal), error text names the failing reader's field; stream S vs strconv.Itoa; stream D error texts vs model"),
-"C20":("proof","run_refines_spec: for every sequence of insertions no panic and answers = set membership; stream S exhaustive short sequences + long random vs map reference"),
+"C17":("proof","anyBytesLow_refines + runOps_appends on a Go-slice model with stale capacity and re-allocation oracle: MarshalBuffer(any buffer) = Marshal for every program; no stale byte exposed; store facts regenerated; streams E/M with adversarial buffers; C17_source_anyBytes_refines: the same for the translation of encoder.go anyBytes (in-place copy/PutUvarint/re-slice on the Go-slice model), Marshal_eq / MarshalBuffer_eq"),
+"C19":("proof","fieldString_decimal for every int32 (no panic, equals decimal), error text names the failing reader's field; stream S vs strconv.Itoa; stream D error texts vs model; C19_source_string_is_decimal: the translated FieldNumber.String (11-byte array loop) is the decimal form for every int32 and never indexes out of range"),
+"C20":("proof","run_refines_spec: for every sequence of insertions no panic and answers = set membership; stream S exhaustive short sequences + long random vs map reference; C20_source_refines_set: the same for the translation of bitset.Small.Set regenerated from the source"),
 }
 checks=[]
 for pid in sorted(P):
@@ -33,8 +33,8 @@ for pid in sorted(P):
         "replay_cmd_template":"./check %s --replay {path}"%pid,
         "engine":"lean4-proof+correspondence",
         "level_claimed":{"category":"proof","text":text,"design_ref":"DESIGN.md section 7 (%s)"%pid},
-        "level_note":"Trusted: Lean 4.33 kernel (+leanchecker in thorough), axioms propext/Quot.sound/Classical.choice only; the facts translators; the hand-written model held to the Go code by the differential correspondence harness (real code in-process, reference protobuf-go v1.31.0); Go code is modelled, not verified. See DESIGN.md section 6.",
-        "technique":"machine-checked proof in Lean 4 about a model regenerated from / differentially tied to the Go source",
+        "level_note":"Trusted: Lean 4.33 kernel (+leanchecker in thorough), axioms propext/Quot.sound/Classical.choice only; the facts translators (golite statement translator with its Go semantics in GoPrelude/GoBuf, expression translator, template matcher, go list); for the parts not translated, the hand-written model held to the Go code by the differential correspondence harness (real code in-process, reference protobuf-go v1.31.0); Go code is modelled, not verified. See DESIGN.md section 6.",
+        "technique":"machine-checked proof in Lean 4: theorems about a model; the model is tied to the Go source on every run by translation (definitions regenerated from the source and proved equal to the model) and by a differential correspondence check for the parts not translated",
     })
 m={
  "version":1,
@@ -43,7 +43,7 @@ m={
           "enable":"go build -overlay <rundir>/overlay.json maps /repo/export_verif.go -> /verif/tools/overlay/export_verif.go",
           "baseline_off_cmd":"cd /repo && GOFLAGS=-mod=mod go test -json -vet=off -count=1 -timeout 25m ./...",
           "source_commits":[],"add_only":True},
- "engines":[{"name":"lean4-proof+correspondence","path":"/verif/check","serves_properties":sorted(P),"kind_free_text":"Lean 4 theorems (lean/PicoProps) over a model partly regenerated from the Go source (tools/harness/cmd/facts -> lean/PicoModel/Gen) and partly hand-written and tied by a differential harness (tools/harness/corr) driving real code, the compiled Lean model (lean/Driver.lean) and protobuf-go"}],
+ "engines":[{"name":"lean4-proof+correspondence","path":"/verif/check","serves_properties":sorted(P),"kind_free_text":"Lean 4 theorems (lean/PicoProps) over a model partly regenerated from the Go source (tools/harness/cmd/facts: statement translator golite, expression translator, tables -> lean/PicoModel/Gen; equalities translated=model in lean/PicoProofs/GoTie*) and partly hand-written and tied by a differential harness (tools/harness/corr) driving real code, the compiled Lean model (lean/Driver.lean) and protobuf-go"}],
  "checks":checks,
  "not_applicable":[{"property_id":"C18","reason":"byte-identity of checked-in files with the output of two Go generator programs is not a statement about an executable Lean model (it would need go/format and protogen modelled, or degenerate into decide on two string literals); DESIGN.md section 8. Nearby guarantee: every other property is established for the checked-in generated code, and C12 exercises the working-tree generator."}],
  "notes":"See DESIGN.md. known_findings.json lists the eleven defects found on the pinned tree, all repaired by fix: commits in /repo."
